@@ -65,7 +65,7 @@ Qed.
 
 (* non-vacuity: a schedule that tries to switch inside the request's section still ends with [2] *)
 Example locked_example :
-  let s := lkrun [true; true; true; false; false; true; true; true; true; true; true; true; false; false; false; false; false] in
+  let s := lkrun [true; true; true; false; false; true; true; true; true; true; true; true; false; false; false; false; false; false; false] in
   l_apc s = 2 /\ l_bpc s = 2 /\ pending_of s = [2].
 Proof. vm_compute. repeat split. Qed.
 
